@@ -21,11 +21,14 @@
 (* implemented: the first failing check determines the answer and which    *)
 (* side effects (nonce burn, code burn) already happened.                  *)
 (*                                                                         *)
-(* Two clocks: `now` in units of 5 s (s2sMaxPresentationValidity =         *)
-(* s2sMaxClockSkew = 5 s, nonce retention 10 s) and `age` in units of      *)
-(* accessTokenValidity / TokenTTL.  The time scales are three orders of    *)
-(* magnitude apart; the harness realises Tick by waiting and Age by        *)
-(* moving the stored token's timestamps.                                   *)
+(* Two clocks: `now` in units of one presentation validity period          *)
+(* (s2sMaxPresentationValidity = s2sMaxClockSkew = 5 s, nonce retention    *)
+(* 10 s; the harness uses a unit of 6 s and sends at 2.5 s into the unit,  *)
+(* which makes every comparison of the node fall >= 1.5 s off a boundary   *)
+(* and VPWindow = Skew = 1, NonceTTL = 2 the exact abstraction) and `age`  *)
+(* in units of accessTokenValidity / TokenTTL.  The time scales are three  *)
+(* orders of magnitude apart; the harness realises Tick by waiting and Age *)
+(* by moving the stored token's timestamps.                                *)
 (*                                                                         *)
 (* Deviations of the code from the property are named constants:           *)
 (*   Guarded      claim names refused when a token is introspected (code:  *)
